@@ -1,9 +1,9 @@
 CHECK = {
     "level": "model_checking",
-    "technique": "stateless bounded-exhaustive enumeration of values, of decoder input strings, of descriptor states and short operation histories, of buffer geometries on a power-of-two boundary family (real, lazily mapped memory in front of an inaccessible page) of driver answer scripts, of placements of the result object inside the memory being decoded and of sink drivers that encode while they are written to, on the real varint code, compared with an independent LEB128 reference; every small decoder input and encoder target in an exact-size heap block under ASan",
+    "technique": "stateless bounded-exhaustive enumeration of values, of decoder input strings, of descriptor states and short operation histories, of buffer geometries on a power-of-two boundary family (real, lazily mapped memory in front of an inaccessible page) of driver answer scripts, of decode histories on one descriptor in every fill-mark flavour (filled / space / partly) with cut-off tails, of placements of the result object inside the memory being decoded and of sink drivers that encode while they are written to, on the real varint code, compared with an independent LEB128 reference; every small decoder input and encoder target in an exact-size heap block under ASan",
     "rule": "values: one case per structured value (both signednesses), contiguous 32-bit ranges as cases of 2^12 (quick) / 2^20 (thorough: all 2^32) values; strings: one case per octet string, odometer in lexicographic order, shorter first, all four type variants x three decoders (buffer, octet source, buffer-backed source) per case. The quantifier's 'random 64-bit values' and 'random strings' are replaced by structured exhaustive families (x<<s and complements, 2^k+-1, septet and octet lane patterns; thorough: odd*2^s for every odd < 2^16) and by the full 6-letter alphabet up to the length bound. "
-            "reuse: one case per (type, value, size, used, offset) and per operation history on one descriptor; windows: one case per (string, offset, length behind the offset) resp. (type, value, offset, fill mark, free length); scripts: one case per (type, driver kind, stream of 1..3 varints through one Source/Sink, placement of driver answers other than 'served'), odometer over the placements; in place: one case per (type, decoder, value, position of the encoding, aligned position of the result object in the same 16/24-octet block); nested: one case per (outer type, outer value, sink kind, inner type, inner value). "
-            "Non-trivial = value whose encoding has >= 2 octets / string whose first octet carries the continuation bit / descriptor with a non-zero fill mark resp. history with two encodes / window of more than 255 octets / script with at least one disturbance actually given by the driver / result object overlapping an encoding of >= 2 octets / nested encode of an outer value of >= 2 octets",
+            "reuse: one case per (type, value, size, used, offset) and per operation history on one descriptor; windows: one case per (string, offset, length behind the offset) resp. (type, value, offset, fill mark, free length); scripts: one case per (type, driver kind, stream of 1..3 varints through one Source/Sink, placement of driver answers other than 'served'), odometer over the placements; decode histories: one case per (memory = 0..2 (thorough 3) complete varints + tail, exact-size block or block that goes on with terminators, fill mark 0..size, type of the varint decodes, type of the tail decode); in place: one case per (type, decoder, value, position of the encoding, aligned position of the result object in the same 16/24-octet block); nested: one case per (outer type, outer value, sink kind, inner type, inner value). "
+            "Non-trivial = value whose encoding has >= 2 octets / string whose first octet carries the continuation bit / descriptor with a non-zero fill mark resp. history with two encodes / window of more than 255 octets / script with at least one disturbance actually given by the driver / decode history with at least one successful decode in front of a rest that is cut off by the end of the memory / result object inside the buffer's memory next to (not overlapping) an encoding of >= 2 octets / nested encode of an outer value of >= 2 octets",
     "assumptions": ["64-bit values outside the structured families are not enumerated",
                     "decoder input octets are drawn from {00,01,7f,80,81,ff}; length <= 8 (quick, plus lengths 9..11 over {00,7f,80}) / 11 (thorough)",
                     "encoders on descriptors that are not fresh: the statement does not say where the form goes; three readings are accepted call by call (written at the read cursor with the fill mark set to its end; written at the read cursor with the fill mark never moved backwards, used = max(used, offset + len); appended at the fill mark), anything else is a violation; success is demanded only when the descriptor holds nothing unread (offset == used, where the readings coincide) and the documented maximum (5/10 octets) is free behind the fill mark; a refusal of a descriptor with unread data (offset != used) or with less room is accepted and nothing is demanded of a refused call; cursor operations between the calls are plain assignments to the public struct",
@@ -15,37 +15,45 @@ CHECK = {
                     "ASan red zones around exact-size heap blocks observe reads beyond the buffer's memory",
                     "'rejected as illegal' is read as: an error, and not the code that says 'cut off, more octets needed' (-ENODATA); which code says 'illegal' is not fixed by the statement. Where the unterminated digits also exceed the type's width "
                     "(last octet of the maximum length carries bits beyond 32/64) a second failure class applies and any negative code is accepted",
-                    "in place: the decoders take a plain result pointer and nothing restricts where it points; the round-trip sentence is therefore also demanded when the (aligned) result object lies inside the buffer's memory, overlapping the encoding or not (canonical encodings only; nothing is demanded of the buffer's content afterwards)",
-                    "nested: a sink's driver may itself call a sink encoder on another sink before it stores the chunk/octet it was handed (stacked sinks); both encodings must deliver the minimal form. No driver answers other than 'took everything' in this family",
+                    "in place: the round-trip sentence is also demanded when the (aligned) result object lies inside the buffer's memory but does not overlap the encoding (canonical encodings only; nothing is demanded of the buffer's content afterwards). "
+                    "Placements where the result object overlaps the encoding are run and logged but NOT judged (audit 5: the statement says nothing about the result aliasing the input; a decoder that sets *n = 0 on entry and accumulates directly into *n is ordinary hardening); class inplace-overlapping is optional; seeded change C14i is no longer reported",
+                    "decode histories: the cut-off sentence (error, consumes nothing, no read beyond the memory) is demanded in every fill-mark flavour, also when the read cursor is beyond the fill mark (a byte_buffer_space() descriptor after its first decode); "
+                    "the round-trip sentence only when the whole encoding lies in [offset, used): for a complete encoding that reaches beyond the fill mark an exact success or a refusal are both accepted (the statement does not say such octets are in the buffer), a refusal ends the history (trivial class dechist-*-refused-beyond-mark); "
+                    "only the classes of the filled flavour are required, those of the space/partly flavours depend on that choice and are optional",
+                    "a byte_buffer_set that refuses a window descriptor of >= 2^31 octets (a size limit of the byte buffer, e.g. size > INT32_MAX) ends the case as the trivial class window-refused-big and records a cap (exhaustive=False, exit 0); the window-*-big classes are therefore optional; a refusal below 2^31 octets remains an infrastructure failure (exit 2)",
+                    "nested: a sink's driver may itself call a sink encoder on another sink before it stores the chunk/octet it was handed (stacked sinks); both encodings must deliver the minimal form. No driver answers other than 'took everything' in this family. "
+                    "This demands re-entrancy of varint_*_to_sink, on which the statement has no sentence (audit 5: a `static` scratch array in the sink encoders is correct for every sink that does not call back), so the family is gated: a start-up probe, outside any case, "
+                    "runs every (outer type, inner type, sink kind) x outer values {0x80, all-ones} x inner values {chunk length, 1234, all-ones} with and, where that goes wrong, without the inner call; if an encoding is wrong only when the driver encodes too, "
+                    "the nested cases are numbered but not run (trivial class nested-not-run, cap, exhaustive=False, exit 0), never a violation; nested-chunk-sink / nested-octet-sink are not required; seeded change C14j is no longer reported",
                     "vacuity guard: only classes that every implementation satisfying the statement produces are required (encodes on descriptors with offset == used); the classes of encodes below the fill mark (dirty-encoded-below-mark, history-reencoded-below-mark) are reported but optional, because refusing such descriptors is admissible"],
     "harnesses": [{
         "name": "c14_varint", "src": "harness/c14_varint.c", "shape": "espace", "opt": "-O2",
         "lib": ["src/variable-length-integer.c", "src/byte-buffer.c", "src/endpoints/core.c", "src/endpoints/buffer.c"],
-        "min_outcomes": 40,
+        "min_outcomes": 38,
         "require_outcomes": {
             "quick": ["rt32-len1", "rt32-len5", "rt64-len1", "rt64-len9", "rt64-len10",
                       "dec-trunc32-trunc64", "dec-ill32-trunc64", "dec-ill32-ill64",
                       "dec-ill32-ok64-canonical", "dec-ill32-ok64-overlong", "dec-ok-canonical",
                       "dec-ok-overlong", "dec-ok-overflow32-canonical64", "dec-ill32-ok64-overflow", "sweep32-maxlen3",
                       "dirty-encoded-at-mark", "history-reencoded-at-mark",
-                      "window-ok", "window-ok-big", "window-cutoff", "window-cutoff-big", "window-illegal-big",
-                      "window-encoded", "window-encoded-big",
+                      "window-ok", "window-cutoff", "window-encoded",
+                      "dechist-filled-cutoff", "dechist-filled-ok", "dechist-filled-illegal",
                       "srcscript-undisturbed", "srcscript-zero", "srcscript-eintr", "srcscript-eagain", "srcscript-hard",
                       "sinkscript-undisturbed", "sinkscript-zero", "sinkscript-eintr",
                       "sinkscript-eagain", "sinkscript-hard",
-                      "inplace-overlapping", "inplace-disjoint", "nested-chunk-sink", "nested-octet-sink"],
+                      "inplace-disjoint"],
             "thorough": ["rt32-len1", "rt32-len5", "rt64-len1", "rt64-len9", "rt64-len10",
                          "dec-trunc32-trunc64", "dec-ill32-trunc64", "dec-ill32-ill64",
                          "dec-ill32-ok64-canonical", "dec-ill32-ok64-overlong", "dec-ill32-ok64-overflow",
                          "dec-ok-canonical", "dec-ok-overlong", "dec-ok-overflow32-canonical64",
                          "sweep32-maxlen3", "sweep32-maxlen4", "sweep32-maxlen5", "sweep64-maxlen10",
                          "dirty-encoded-at-mark", "history-reencoded-at-mark",
-                         "window-ok", "window-ok-big", "window-cutoff", "window-cutoff-big", "window-illegal-big",
-                         "window-encoded", "window-encoded-big",
+                         "window-ok", "window-cutoff", "window-encoded",
+                         "dechist-filled-cutoff", "dechist-filled-ok", "dechist-filled-illegal",
                          "srcscript-undisturbed", "srcscript-zero", "srcscript-eintr", "srcscript-eagain", "srcscript-hard",
                          "sinkscript-undisturbed", "sinkscript-zero", "sinkscript-eintr",
                          "sinkscript-eagain", "sinkscript-hard",
-                      "inplace-overlapping", "inplace-disjoint", "nested-chunk-sink", "nested-octet-sink"],
+                      "inplace-disjoint"],
         },
     }],
 }
